@@ -292,7 +292,7 @@ fn run_rulefile_case(t: &mut Tape, ctx: &mut CaseCtx) -> Verdict {
     for d in dirs {
         files.push((format!("{}d.bin", d), content(d)));
     }
-    let rules = "#subruledef operand\n{\n    #{v} => v\n    [{v}] => v\n}\n#ruledef\n{\n    ld {o: operand} => 0xaa @ o\n    raw {v} => 0xbb @ v\n    self => 0xcc @ incbin(\"d.bin\")\n    selfsub {o: operand} => 0xdd @ incbin(\"d.bin\") @ o\n}\n";
+    let rules = "#subruledef operand\n{\n    #{v} => v\n    [{v}] => v\n}\n#ruledef\n{\n    ld {o: operand} => 0xaa @ o\n    raw {v} => 0xbb @ v\n    self => 0xcc @ incbin(\"d.bin\")\n    selfsub {o: operand} => 0xdd @ incbin(\"d.bin\") @ o\n}\n#fn fdata() => incbin(\"d.bin\")\n#fn fwrap(x) => 0xee @ x @ incbin(\"./d.bin\")\n";
     files.push((format!("{}rules.asm", rule_dir), rules.as_bytes().to_vec()));
     let mut body = String::new();
     let mut expect: Vec<u8> = Vec::new();
@@ -300,7 +300,24 @@ fn run_rulefile_case(t: &mut Tape, ctx: &mut CaseCtx) -> Verdict {
     let there = content(rule_dir);
     let n = t.urange(1, 5);
     for _ in 0..n {
-        match t.draw(7) {
+        match t.draw(10) {
+            7 => {
+                // a function defined in the rules file names the file next to ITS text
+                body.push_str("#d fdata()\n");
+                expect.extend(&there);
+            }
+            8 => {
+                body.push_str("raw fdata()\n");
+                expect.push(0xbb);
+                expect.extend(&there);
+            }
+            9 => {
+                // the argument is written here, the body there
+                body.push_str("#d fwrap(incbin(\"d.bin\"))\n");
+                expect.push(0xee);
+                expect.extend(&here);
+                expect.extend(&there);
+            }
             0 => {
                 body.push_str("ld #incbin(\"d.bin\")\n");
                 expect.push(0xaa);
